@@ -477,6 +477,18 @@ func genDidHistory(r *RNG, nBlocks int) []string {
 // the other letter case where that is still a base58 character, otherwise the next base58 character.
 func nearMissDID(r *RNG, did string) string {
 	const pfx = "did:panacea:"
+	// a third of the time a DID that is a proper prefix or an extension of the given one (both still well formed:
+	// 32..44 base58 characters), otherwise one character changed (case or neighbour in the alphabet)
+	switch body := did[len(pfx):]; r.Intn(6) {
+	case 0:
+		if len(body) > 32 {
+			return did[:len(did)-1-r.Intn(min(3, len(body)-32))]
+		}
+	case 1:
+		if len(body) < 44 {
+			return did + string(didtypes.Base58Charset[r.Intn(len(didtypes.Base58Charset))])
+		}
+	}
 	b := []byte(did)
 	for tries := 0; tries < 50; tries++ {
 		i := len(pfx) + r.Intn(len(b)-len(pfx))
